@@ -103,3 +103,29 @@ TRS_CANON = r"[0-9]{1,3}[ns][0-9]{1,3}[ew][0-9]{2}"
 # it: any sequence of clean halves and quarters (halves may follow quarters:
 # 'NE¼N½' is the north half of the NE/4)
 ALIQUOT_CHAIN = r"([NESW]½|(NE|NW|SE|SW)¼)+"
+
+
+# --- ordinary words ----------------------------------------------------------
+# Words that occur in the prose of land descriptions and that are NOT part of
+# any Twp/Rge, section, principal-meridian or aliquot syntax.  A regex whose
+# match is deleted / rewritten by a preprocessor must not fire inside any of
+# them (negative witnesses; the list is an oracle of this checker, chosen for
+# the letter sequences the reference syntax is built from: pm, pr, mer, sec,
+# lot, twp, rge, n/s/e/w + digit).
+ORDINARY_WORDS = (
+    'shipment', 'equipment', 'development', 'compartment', 'encampment', 'shipments',
+    'private', 'property', 'approximately', 'April', 'improvements', 'premises', 'primary', 'primarily', 'prime',
+    'primer', 'permit', 'permanent',
+    'former', 'Former railroad', 'summer', 'Summer pasture', 'farmer', 'Palmer Addition', 'commercial', 'numerous',
+    'merchant', 'hammer', 'emergency', 'supreme', 'compromise', 'pump', 'pump house', 'camp', 'ramp',
+    'pipeline', 'easement', 'railroad', 'addition', 'pasture', 'homestead', 'reservoir', 'township road',
+)
+
+# section / lot lists followed by an aliquot that starts with E or W: two
+# numbers, a dash and a direction letter - but no Twp/Rge.  None of the Twp/Rge
+# patterns (least of all the preprocessing ones, which REWRITE their match)
+# may fire in them.
+NOT_TWPRGE = (
+    'Sec 4 - 9, W/2', 'Sections 1 - 3, E/2 of', 'Lots 2 - 4, W½', 'Sec 12-14 W/2', 'Lot 4-7 E/2', 'Secs 14, 15, E½',
+    'Sec 1 - 3: W/2', 'Sections 22 - 27, W½NE¼', 'Sec 4-9 E/2',
+)
